@@ -148,6 +148,7 @@ def work(item):
     before = fingerprint(x)
     kw = dict(channels=render_ch(f), amplification_type=render_arg('at', at), amplifier_gain=render_arg('ag', ag),
               resolution=render_arg('res', rs))
+    kw_before = repr(kw)
     try:
         with warnings.catch_warnings():
             warnings.simplefilter('ignore')
@@ -160,6 +161,10 @@ def work(item):
     key = sig = None
     if fingerprint(x) != before:
         lab = 'input-mutated'
+    elif repr(kw) != kw_before:
+        # the caller's settings lists are reused for the next sample: what the call wrote into them would override
+        # that sample's own recorded settings
+        lab = 'caller-settings-list-changed'
     elif exp['k'] == 'refused':
         lab = None if y is None else 'accepted'
     elif y is None:
